@@ -45,6 +45,11 @@ CHECKS = {
    note="Trusted: overlay instrumentation; porcupine; histories <= 25 sections; porcupine time-outs counted as inconclusive.",
    technique="deterministic simulation: seeded goroutine schedules and stalls over the real lock manager; porcupine strict-serializability check of the recorded history; bounded-progress verdict; shrunk replay files",
    ref="6 (C07)"),
+ "C13": dict(
+   text="Seeded search over 2-4 nodes each owning the real NewCRDT resource (broadcaster ticker, merger, net/rpc receiver over a simulated network) with archetypes that write distinct power-of-two increments per attempt, hold sections open across broadcast ticks and incoming merges, commit, abort, or abandon the write after aborting; schedules interleave ticks, ReceiveValue calls, merges, writes, commits and aborts. On every read: no update of an aborted attempt, no update of a section still in flight elsewhere, nothing previously read missing; after updates stop every node reads every committed update that was issued while it was reachable, and nothing uncommitted, within 20 broadcast intervals + 2 send time-outs + 1 s.",
+   note="Trusted: overlay instrumentation; GCounter with power-of-two increments as the attributable CRDT value; no resets/partitions injected (property speaks of connected peers); delivery is only required to peers listening before the update's section started.",
+   technique="deterministic simulation: seeded schedules over the overlay-instrumented CRDT resource and net/rpc on a simulated network; per-read attribution oracles and bounded-convergence verdict; shrunk replay files",
+   ref="6 (C13)"),
 }
 PENDING = "check not built yet in this session (planned, see DESIGN.md section 6); not claimed until its harness passes the determinism self-test"
 
